@@ -22,6 +22,83 @@ theorem select_exact [Inhabited S] (be : Backend) (isZero : S → Bool) (ixs : L
     · simpa using hall
   · cases h
 
+/-! ### frame slices `body[a:b:step]` (Python's `slice.indices`, positive steps) -/
+
+theorem pyBound_le (x : Option Int) (dflt n : Nat) (hd : dflt ≤ n) : pyBound x dflt n ≤ n := by
+  unfold pyBound
+  split
+  · exact hd
+  · split <;> omega
+
+/-- membership: exactly the positions `start + j·step` below the stop bound -/
+theorem mem_pySliceIndexes (a b : Option Int) (step n i : Nat) (hs : 0 < step) :
+    i ∈ pySliceIndexes a b step n ↔ pyBound a 0 n ≤ i ∧ i < pyBound b n n ∧ (i - pyBound a 0 n) % step = 0 := by
+  unfold pySliceIndexes
+  simp only [List.mem_map, List.mem_range]
+  constructor
+  · rintro ⟨j, hj, rfl⟩
+    have hlt : j * step < pyBound b n n - pyBound a 0 n := by
+      have := (Nat.lt_div_iff_mul_lt hs).mp hj
+      omega
+    refine ⟨by omega, by omega, ?_⟩
+    have : pyBound a 0 n + j * step - pyBound a 0 n = j * step := by omega
+    rw [this]; exact Nat.mul_mod_left j step
+  · rintro ⟨h1, h2, h3⟩
+    refine ⟨(i - pyBound a 0 n) / step, ?_, ?_⟩
+    · apply (Nat.lt_div_iff_mul_lt hs).mpr
+      have := Nat.div_mul_cancel (Nat.dvd_of_mod_eq_zero h3)
+      omega
+    · have := Nat.div_mul_cancel (Nat.dvd_of_mod_eq_zero h3)
+      omega
+
+/-- every frame a slice names exists -/
+theorem pySliceIndexes_lt (a b : Option Int) (step n : Nat) (hs : 0 < step) : ∀ i ∈ pySliceIndexes a b step n, i < n := by
+  intro i hi
+  have := (mem_pySliceIndexes a b step n i hs).mp hi
+  have := pyBound_le b n n (Nat.le_refl n)
+  omega
+
+/-- … and they come in strictly increasing order -/
+theorem pySliceIndexes_sorted (a b : Option Int) (step n : Nat) (hs : 0 < step) : (pySliceIndexes a b step n).Pairwise (· < ·) := by
+  unfold pySliceIndexes
+  rw [List.pairwise_map]
+  refine List.Pairwise.imp ?_ (List.pairwise_lt_range)
+  intro x y hxy
+  have := Nat.mul_lt_mul_of_lt_of_le hxy (Nat.le_refl step) hs
+  omega
+
+/-- A frame slice with a positive step never fails, and returns exactly the frames Python's slice names, in order, at the same rate. -/
+theorem slice_exact [Inhabited S] (be : Backend) (isZero : S → Bool) (a b : Option Int) (step : Nat) (hs : 0 < step) (body : PBody S) :
+    ∃ r, sliceFrames be isZero a b step body = some r ∧
+      r.data = (pySliceIndexes a b step (numFrames body)).map (fun i => body.data.getD i default) ∧
+      r.conf = (pySliceIndexes a b step (numFrames body)).map (fun i => body.conf.getD i default) ∧ r.fps = body.fps := by
+  have hall : (pySliceIndexes a b step (numFrames body)).all (· < numFrames body) = true := by
+    simpa using pySliceIndexes_lt a b step (numFrames body) hs
+  have h : sliceFrames be isZero a b step body = some (mkBody be isZero body.fps (pickD (pySliceIndexes a b step (numFrames body)) body.data)
+      (pickD (pySliceIndexes a b step (numFrames body)) body.conf) (some (pickD (pySliceIndexes a b step (numFrames body)) body.missing))) := by
+    simp [sliceFrames, selectFrames, hall, Nat.ne_of_gt hs]
+  have h' : selectFrames be isZero (pySliceIndexes a b step (numFrames body)) body = some (mkBody be isZero body.fps (pickD (pySliceIndexes a b step (numFrames body)) body.data)
+      (pickD (pySliceIndexes a b step (numFrames body)) body.conf) (some (pickD (pySliceIndexes a b step (numFrames body)) body.missing))) := by
+    simp [selectFrames, hall]
+  obtain ⟨h1, h2, h3, _⟩ := select_exact be isZero _ body _ h'
+  exact ⟨_, h, h1, h2, h3⟩
+
+/-- `[::k]` is stepping: the slice without bounds names the frames 0, k, 2k, … that `slice_step(k)` returns. -/
+theorem slice_unbounded_is_step (k n : Nat) : pySliceIndexes none none k n = (List.range ((n + k - 1) / k)).map (fun j => j * k) := by
+  simp [pySliceIndexes, pyBound]
+
+/-- the empty prefix `[:0]`, and a stop at or before the start, name no frame -/
+theorem slice_empty (a : Option Int) (step n : Nat) (hs : 0 < step) : pySliceIndexes a (some 0) step n = [] := by
+  have : ∀ i, i ∉ pySliceIndexes a (some 0) step n := by
+    intro i hi
+    have := (mem_pySliceIndexes a (some 0) step n i hs).mp hi
+    simp [pyBound] at this
+  exact List.eq_nil_iff_forall_not_mem.mpr this
+
+example : pySliceIndexes none (some (-1)) 1 5 = [0, 1, 2, 3] ∧ pySliceIndexes (some (-3)) none 1 5 = [2, 3, 4] ∧ pySliceIndexes (some 1) (some (-2)) 1 5 = [1, 2]
+    ∧ pySliceIndexes none none 2 5 = [0, 2, 4] ∧ pySliceIndexes (some (-9)) (some 9) 3 5 = [0, 3] ∧ pySliceIndexes (some 4) (some 1) 1 5 = [] := by decide
+
+
 /-- The empty request is a request like any other: on every backend and every body it succeeds and yields the pose of no frames at the same rate
     (the unchanged TensorFlow body raised here: F17). -/
 theorem select_empty [Inhabited S] (be : Backend) (isZero : S → Bool) (b : PBody S) :
